@@ -112,7 +112,7 @@ def click_defaults(ctx, fn):
     """{parameter name: value click passes when the option/argument is not given} read from the command's click.option / click.argument decorators."""
     idx = ctx.index
     out = {}
-    for d in fn.node.decorator_list:
+    for d in ctx.index.expanded_decorators(fn):
         if not isinstance(d, ast.Call):
             continue
         canon = idx.canon(d.func, fn.module) or ""
@@ -224,7 +224,8 @@ def file_hooks(events, disk=None):
             "tempfile.NamedTemporaryFile": h_named_tmp, "tempfile.mkstemp": h_mkstemp, "os.fdopen": h_fdopen, "tempfile.gettempdir": lambda: tok("TMPDIR"),
             "os.fsync": lambda *a, **k: None, "attr:flush": lambda recv, *a: None, "attr:fileno": lambda recv, *a: Obj("fd", path=getattr(recv, "path", None)), "json.dump": h_dump, "json.load": h_load, "os.replace": h_replace, "os.rename": h_replace,
             "attr:write": lambda recv, *a: events.append(("write", getattr(recv, "path", None), a[0] if a else None)),
-            "attr:close": lambda recv, *a: events.append(("ops.close",)) if isinstance(recv, Obj) and recv._name == "ops" else None}
+            "attr:close": lambda recv, *a: events.append(("ops.close",)) if isinstance(recv, Obj) and recv._name == "ops" else (
+                events.append(("close", getattr(recv, "path", None))) if isinstance(recv, Obj) and recv._name == "file" else None)}
 
 
 def tracking_backend(ctx, tracked, states, ops_hooks=None):
@@ -1160,7 +1161,7 @@ def cli_overrides_witness(ctx):
     ci = idx.cls("gwf.conf:FileConfig")
     diffs, n = [], 0
     params = main.positional_params()
-    for d in main.node.decorator_list:
+    for d in ctx.index.expanded_decorators(main):
         if not (isinstance(d, ast.Call) and idx.canon(d.func, main.module) == "click.option"):
             continue
         kw = {k.arg: k.value for k in d.keywords if k.arg}
@@ -3464,9 +3465,15 @@ def cached_fs_witness(ctx):
             return Obj("stat_result", st_mtime=0.0, st_ctime=999.0, st_atime=5.0, st_size=0)
         return Obj("stat_result", st_mtime=111.5, st_ctime=999.0, st_atime=5.0, st_size=3)
 
-    hooks = {"os.stat": h_stat, "os.lstat": lambda p, *a, **k: (stats.append(("lstat", str(p), {})), h_stat(p))[1],
+    def h_quiet(path):       # (the answer without the bookkeeping: the hooks below record their one call themselves)
+        n0 = len(stats)
+        try:
+            return h_stat(path)
+        finally:
+            del stats[n0:]
+    hooks = {"os.stat": h_stat, "os.lstat": lambda p, *a, **k: (stats.append(("lstat", str(p), {})), h_quiet(p))[1],
              "os.path.exists": lambda p: (stats.append(("stat", str(p), {})), str(p) != "/missing")[1],
-             "os.path.getmtime": lambda p: (stats.append(("stat", str(p), {})), h_stat(p).st_mtime)[1]}
+             "os.path.getmtime": lambda p: (stats.append(("stat", str(p), {})), h_quiet(p).st_mtime)[1]}
     interp = PureInterp(ctx, hooks=hooks)
 
     def new_fs():
@@ -3792,7 +3799,7 @@ def _click_convert(ctx, fn, opt_long, text):
     """What click hands to the command for `<opt_long> <text>` according to the option's declared type=; ('rejected', why) when click refuses it.
     Raises Unsupported for parameter types that are not modelled."""
     idx = ctx.index
-    for d in fn.node.decorator_list:
+    for d in ctx.index.expanded_decorators(fn):
         if not (isinstance(d, ast.Call) and idx.canon(d.func, fn.module) == "click.option"):
             continue
         names = [a.value for a in d.args if isinstance(a, ast.Constant) and isinstance(a.value, str)]
